@@ -130,6 +130,7 @@ bool Json::parse(const std::string& text, Json& out) {
 Json Program::to_json() const {
   Json j = Json::obj();
   j.set("ntasks", Json::inum(ntasks));
+  j.set("persist_tmp", Json::inum(persist_tmp));
   Json ms = Json::arr();
   for (auto& m : modules) ms.push(Json::obj().set("n", Json::num(m.n)).set("type", Json::str(m.type ? "NTT120" : "FFT64")));
   j.set("modules", ms);
@@ -177,6 +178,7 @@ static int find_name(const T& names, int n, const std::string& s) {
 bool Program::from_json(const Json& j, std::string& err) {
   *this = Program();
   ntasks = (int)j.i("ntasks");
+  persist_tmp = (int)j.i("persist_tmp");
   const Json* ms = j.get("modules");
   const Json* ts = j.get("tables");
   const Json* ss = j.get("slots");
